@@ -249,6 +249,69 @@ async fn parked_on_victim_cell(set: Arc<CertSet>, extra: usize, watch_s: u64, ce
     Ok(format!("other-topic-served for {watch_s} s"))
 }
 
+/// "Any number of peers queueing up to join": N peers, each over a connection of its own, ask to
+/// join the stalled topic A; a new client must still be able to connect and use topic B.
+async fn many_connections_cell(set: Arc<CertSet>, n: usize, cellid: u64) -> Result<String, Fail> {
+    let class = "many-connections".to_string();
+    let setup = |what: &str, e: String| fail("setup", what, format!("{what}: {e}"));
+    let addr = net::start_server(&set).map_err(|e| setup("server", e.to_string()))?;
+    let a = format!("/c17ns/stall{cellid}");
+    let b = format!("/c17ns/free{cellid}");
+    let ta = TopicName::try_from(a.as_str()).unwrap();
+    let mut held = Held { _conns: Vec::new(), _streams: Vec::new() };
+    let stall_conn = RawConn::connect(addr, &set.ca, Some(&set.client)).await.map_err(|e| setup("raw connect", e.to_string()))?;
+    let (sub_stream, first) = stall_conn.register(Frame::RegisterSubscriber(SubscriberPayload { topic: ta.clone(), retention_policy: 0, operations: vec![] })).await.map_err(|e| setup("stalling subscriber", e.to_string()))?;
+    if first != Some(Frame::Ok) {
+        return Err(setup("stalling subscriber", format!("{first:?}")));
+    }
+    held._streams.push(sub_stream);
+    let (mut pub_stream, first) = stall_conn.register(Frame::RegisterPublisher(PublisherPayload { topic: ta.clone(), retention_policy: 0, operations: vec![] })).await.map_err(|e| setup("flooding publisher", e.to_string()))?;
+    if first != Some(Frame::Ok) {
+        return Err(setup("flooding publisher", format!("{first:?}")));
+    }
+    let chunk = Bytes::from(vec![b'x'; 64 * 1024]);
+    let mut stalled = false;
+    for _ in 0..1024 {
+        match tokio::time::timeout(Duration::from_secs(1), pub_stream.send(Frame::Message(MessagePayload { headers: None, message: chunk.clone() }))).await {
+            Ok(Ok(())) => {}
+            Ok(Err(e)) => return Err(setup("flood", e.to_string())),
+            Err(_) => {
+                stalled = true;
+                break;
+            }
+        }
+    }
+    if !stalled {
+        return Err(setup("flood", "the topic never stalled".into()));
+    }
+    held._streams.push(pub_stream);
+    let mut turned_away = 0usize;
+    for i in 0..n {
+        match RawConn::connect(addr, &set.ca, Some(&set.client)).await {
+            Ok(c) => {
+                if let Ok(mut s) = c.open().await {
+                    let _ = s.send(Frame::RegisterSubscriber(SubscriberPayload { topic: ta.clone(), retention_policy: 0, operations: vec![] })).await;
+                    held._streams.push(s);
+                }
+                held._conns.push(c);
+            }
+            Err(e) => {
+                turned_away += 1;
+                if turned_away == 1 && std::env::var("VERIF_DEBUG").is_ok() {
+                    eprintln!("peer {i} could not connect: {e}");
+                }
+            }
+        }
+    }
+    let r = round_trip(addr, &set, &b, Duration::from_secs(20)).await;
+    drop(held);
+    match r {
+        Ok(_) if turned_away == 0 => Ok("other-topic-served".into()),
+        Ok(_) => Err(fail("peers-turned-away", &class, format!("{turned_away} of {n} peers that wanted to join the stalled topic over a connection of their own could not even connect"))),
+        Err(e) => Err(fail("other-topic-blocked", &class, format!("{n} peers, each over its own connection, are queueing to join the stalled topic {a} ({turned_away} were turned away); a fresh client on topic {b}: {e}"))),
+    }
+}
+
 /// Peers of topic A that grant the server no credit at all on their streams (the answer to their
 /// registration can never be written). Everybody else must be unaffected.
 async fn zero_window_cell(set: Arc<CertSet>, n: usize, role: String, mismatch: bool, cellid: u64) -> Result<String, Fail> {
@@ -315,6 +378,9 @@ fn cells(tier: &str) -> Vec<Value> {
             }
         }
     }
+    // many peers, one connection each
+    v.push(json!({"cell": id, "family": "many-connections", "peers": if tier == "thorough" { 400 } else { 140 }}));
+    id += 1;
     // a client of a healthy topic that also has registrations parked behind the stalled one
     v.push(json!({"cell": id, "family": "parked-on-victim", "parked_registrations": 3, "watch_s": if tier == "thorough" { 35 } else { 8 }}));
     id += 1;
@@ -341,6 +407,9 @@ pub async fn run(tier: &str, replaying: bool) -> ! {
     let outs = run_matrix(cs, 6, |c| {
         let set = set.clone();
         async move {
+            if c["family"].as_str() == Some("many-connections") {
+                return (true, many_connections_cell(set, c["peers"].as_u64().unwrap() as usize, c["cell"].as_u64().unwrap()).await);
+            }
             if c["family"].as_str() == Some("parked-on-victim") {
                 return (true, parked_on_victim_cell(set, c["parked_registrations"].as_u64().unwrap() as usize, c["watch_s"].as_u64().unwrap(), c["cell"].as_u64().unwrap()).await);
             }
@@ -359,7 +428,7 @@ pub async fn run(tier: &str, replaying: bool) -> ! {
     finish(
         rep,
         outs,
-        "every cell of: number N of further registrations on the stalled topic in {0,(1,50,)99,100,101,102,(103,)150,200(,163..165,250,400)} x order {stall first then N registrations, N registrations first then stall} x stalled pattern {pub/sub: never-reading subscriber + flooding publisher; request/reply: never-reading bound replier + flooding requestor}; per cell a fresh real server, topic A stalled by a raw subscriber that never reads plus a raw publisher flooding 64 KiB frames until a send takes longer than 1 s, N raw subscriber registrations on A (each awaits its Ok; a new QUIC connection every 50 streams), then the flooding client itself must round-trip a message on another topic over the same connection, and a fresh real client opens subscriber + publisher on topic B and must round-trip a message, each within 20 s. Plus one parked-on-victim cell: with A stalled and its queue full, a client exchanging messages on topic B also sends 3 registrations for A over the same connection (they park); its exchanges on B must keep working for 8 s (thorough 35 s, i.e. beyond any internal time-out). Plus zero-window cells: 1 or 3 peers register on topic A in each of the four roles over connections that grant the server no flow-control credit on their streams (the answer to their registration - Ok, or the refusal when topic A already exists with the other messaging pattern - can never be written); a fresh client must still round-trip a message on topic B. non-trivial = N > 0",
+        "every cell of: number N of further registrations on the stalled topic in {0,(1,50,)99,100,101,102,(103,)150,200(,163..165,250,400)} x order {stall first then N registrations, N registrations first then stall} x stalled pattern {pub/sub: never-reading subscriber + flooding publisher; request/reply: never-reading bound replier + flooding requestor}; per cell a fresh real server, topic A stalled by a raw subscriber that never reads plus a raw publisher flooding 64 KiB frames until a send takes longer than 1 s, N raw subscriber registrations on A (each awaits its Ok; a new QUIC connection every 50 streams), then the flooding client itself must round-trip a message on another topic over the same connection, and a fresh real client opens subscriber + publisher on topic B and must round-trip a message, each within 20 s. Plus one many-connections cell: 140 (thorough 400) peers, each over a connection of its own, ask to join the stalled topic; every one of them must be able to connect and a fresh client must still round-trip on topic B. Plus one parked-on-victim cell: with A stalled and its queue full, a client exchanging messages on topic B also sends 3 registrations for A over the same connection (they park); its exchanges on B must keep working for 8 s (thorough 35 s, i.e. beyond any internal time-out). Plus zero-window cells: 1 or 3 peers register on topic A in each of the four roles over connections that grant the server no flow-control credit on their streams (the answer to their registration - Ok, or the refusal when topic A already exists with the other messaging pattern - can never be written); a fresh client must still round-trip a message on topic B. non-trivial = N > 0",
         "fault = misbehaving participants of one topic; enumerated exhaustively over the listed N and orders",
         json!({}),
         replaying,
